@@ -1,0 +1,90 @@
+//go:build verif
+
+package graph
+
+import (
+	"cmp"
+	"fmt"
+	"slices"
+
+	openfgav1 "github.com/openfga/api/proto/openfga/v1"
+)
+
+// Verification hooks (build tag "verif" only; not part of the public API).
+//
+// Go randomises map iteration, and AssignWeights starts its depth-first search from the nodes in
+// map-iteration order. These two functions let a test harness choose that order explicitly so that
+// the traversal orders can be enumerated instead of sampled. They call the same unexported
+// functions as Build and AssignWeights and add no behaviour of their own.
+
+// VerifBuildUnweighted performs the graph-construction half of Build (no weight assignment).
+func (wgb *WeightedAuthorizationModelGraphBuilder) VerifBuildUnweighted(model *openfgav1.AuthorizationModel) (*WeightedAuthorizationModelGraph, error) {
+	wb := NewWeightedAuthorizationModelGraph()
+	sortedTypeDefs := make([]*openfgav1.TypeDefinition, len(model.GetTypeDefinitions()))
+	copy(sortedTypeDefs, model.GetTypeDefinitions())
+
+	slices.SortFunc(sortedTypeDefs, func(a, b *openfgav1.TypeDefinition) int {
+		return cmp.Compare(a.GetType(), b.GetType())
+	})
+
+	for _, typeDef := range sortedTypeDefs {
+		wb.GetOrAddNode(typeDef.GetType(), typeDef.GetType(), SpecificType)
+
+		sortedRelations := make([]string, 0, len(typeDef.GetRelations()))
+		for relationName := range typeDef.GetRelations() {
+			sortedRelations = append(sortedRelations, relationName)
+		}
+
+		slices.Sort(sortedRelations)
+
+		for _, relation := range sortedRelations {
+			uniqueLabel := typeDef.GetType() + "#" + relation
+			parentNode := wb.GetOrAddNode(uniqueLabel, uniqueLabel, SpecificTypeAndRelation)
+			rewrite := typeDef.GetRelations()[relation]
+			err := wgb.parseRewrite(wb, parentNode, model, rewrite, typeDef, relation)
+			if err != nil {
+				return nil, err
+			}
+		}
+	}
+
+	return wb, nil
+}
+
+// VerifAssignWeightsInOrder is AssignWeights with the depth-first search started from the nodes in
+// the given order (unique labels); nodes not listed are visited afterwards in sorted order.
+func (wg *WeightedAuthorizationModelGraph) VerifAssignWeightsInOrder(order []string) error {
+	visited := make(map[string]bool)
+	ancestorPath := make([]*WeightedAuthorizationModelEdge, 0)
+	tupleCycleDependencies := make(map[string][]*WeightedAuthorizationModelEdge)
+
+	rest := make([]string, 0, len(wg.nodes))
+	listed := make(map[string]bool, len(order))
+	for _, node := range order {
+		listed[node] = true
+	}
+	for node := range wg.nodes {
+		if !listed[node] {
+			rest = append(rest, node)
+		}
+	}
+	slices.Sort(rest)
+
+	for _, node := range append(append([]string{}, order...), rest...) {
+		if _, ok := wg.nodes[node]; !ok {
+			continue
+		}
+		if visited[node] {
+			continue
+		}
+
+		tupleCyles, err := wg.calculateNodeWeight(node, visited, ancestorPath, tupleCycleDependencies)
+		if err != nil {
+			return err
+		}
+		if len(tupleCyles) > 0 {
+			return fmt.Errorf("%w: %d tuple cycles found without resolution", ErrTupleCycle, len(tupleCyles))
+		}
+	}
+	return nil
+}
